@@ -280,12 +280,19 @@ def materialise(root, idx, inp):
     return d, data, lps
 
 
-def run_cli(argv, cwd, stdin_bytes, timeout=30):
+def run_cli(argv, cwd, stdin_bytes, timeout=30, stdout_path=None):
+    """stdout_path: redirect the binary's stdout there (e.g. /dev/full) instead of capturing it."""
     t0 = time.time()
+    sink = open(stdout_path, "wb") if stdout_path else None
     try:
         p = subprocess.run([vlib.GRASS_BIN] + argv, cwd=cwd, input=stdin_bytes if stdin_bytes is not None else b"",
-                           stdout=subprocess.PIPE, stderr=subprocess.PIPE, timeout=timeout)
-        return {"code": p.returncode, "stdout": p.stdout, "stderr": p.stderr, "wall": time.time() - t0}
+                           stdout=sink or subprocess.PIPE, stderr=subprocess.PIPE, timeout=timeout)
+        if sink:
+            try:
+                sink.close()
+            except OSError:
+                pass
+        return {"code": p.returncode, "stdout": p.stdout or b"", "stderr": p.stderr, "wall": time.time() - t0}
     except subprocess.TimeoutExpired:
         return {"code": None, "stdout": b"", "stderr": b"", "timeout": True, "wall": time.time() - t0}
 
@@ -300,8 +307,9 @@ def opt_dec(s):
 
 
 KNOWN_STDIN_OUTPUT = {"argv": ["--stdin", "out.css"], "stdin": "a{b:c}"}
+KNOWN_UNFLUSHED = {"argv": ["--style", "compressed", "io/small.scss"], "input": "a{b:c}", "stdin": None, "stdout": "/dev/full"}
 # minimised past failures / known-finding witnesses, replayed on every run (besides `fixed_inputs()`, which run first)
-CORPUS = [KNOWN_STDIN_OUTPUT]
+CORPUS = [KNOWN_STDIN_OUTPUT, KNOWN_UNFLUSHED]
 
 
 def run(tier, seed):
@@ -584,6 +592,9 @@ def _run(ck, tier, root, static_broken):
                         "expected_by_property": "exit 0 and exactly the library's CSS in the sink / non-zero exit, empty stdout and the rendered error on stderr"})
     log(f"[C20] verdicts done in {time.time() - t0:.1f}s; {n_failing} failing")
 
+    # ---- I/O errors while delivering the CSS -------------------------------------------------------
+    io_failure_cases(ck, root)
+
     # ---- the known finding: --stdin with an output file ---------------------------------------
     d = os.path.join(root, "kf")
     os.makedirs(d, exist_ok=True)
@@ -605,10 +616,75 @@ def _run(ck, tier, root, static_broken):
     for f in failing:
         if ck.impl_violation(json.dumps({"argv": f["argv"], "input": f["input"]}, sort_keys=True), f):
             reported += 1
-    if (ck.cov["model_disagreements"] or static_broken) and not reported:
+    if (ck.cov["model_disagreements"] or static_broken) and not reported and not any(v[0] == "impl" for v in ck.violations):
         ck.unproved("correspondence-broken", {"correspondence": "model's reading of argv / argument table of main.rs vs the binary",
                                               "static": static_broken, "cases": ck.disagreements[:5]})
     return ck.finish()
+
+
+def io_failure_cases(ck, root):
+    """A sink that cannot take the CSS: stdout redirected to /dev/full, OUTPUT=/dev/full.
+    P̂ = the SPECIFIED outcome (`outcomeIO true`: non-zero exit + OS error on stderr whenever there was
+    CSS to deliver); the tie accepts the as-found variant (`outcomeIO false`) too, and a run that matches
+    only the as-found variant is the known finding C20-unflushed-stdout."""
+    if not os.path.exists("/dev/full"):
+        ck.notes.append("no /dev/full on this machine: I/O-failure cases skipped")
+        return
+    d = os.path.join(root, "io")
+    os.makedirs(d, exist_ok=True)
+    inputs = {
+        "small": "a{b:c}",                                                                # < 1 KiB
+        "small-warn": "@warn \"w\"; a{b:c}",
+        "medium": "".join(f".r{i}{{w:{i}px}}\n" for i in range(150)),                     # < 8 KiB either style
+        "large": "".join(f".r{i}{{w:{i}px;c:\"{'x' * 40}\"}}\n" for i in range(1500)),   # > 64 KiB either style
+        "error": "a{b:$undefined}",
+        "empty": "",
+    }
+    cases = []
+    for name, text in inputs.items():
+        with open(os.path.join(d, name + ".scss"), "w") as f:
+            f.write(text)
+        for style in ("expanded", "compressed"):
+            fl = ["--style", style] if style == "compressed" else []
+            cases.append({"argv": fl + [f"io/{name}.scss"], "input": text, "stdin": None, "stdout": "/dev/full", "kind": "stdout", "style": style})
+            cases.append({"argv": fl + [f"io/{name}.scss", "/dev/full"], "input": text, "stdin": None, "stdout": None, "kind": "file", "style": style})
+            cases.append({"argv": ["--stdin"] + fl, "input": text, "stdin": text, "stdout": "/dev/full", "kind": "stdout", "style": style})
+    with concurrent.futures.ThreadPoolExecutor(max_workers=16) as ex:
+        obs = list(ex.map(lambda c: run_cli(c["argv"], root, c["stdin"].encode() if c["stdin"] is not None else None,
+                                            stdout_path=c["stdout"]), cases))
+    jobs = []
+    for c in cases:
+        o = {"style": "compressed"} if c["style"] == "compressed" else {}
+        jobs.append({"mode": "compile", "input": c["input"], "fs": "std", "logger": "std", "options": o} if c["stdin"] is not None
+                    else {"mode": "compile", "entry": c["argv"][-1] if c["kind"] == "stdout" else c["argv"][-2], "fs": "std", "logger": "std", "options": o})
+    libs = runner_map(jobs, root, timeout=30, n=8)
+    lines = []
+    for c, o, r in zip(cases, obs, libs):
+        lk = "ok" if r.get("status") == "ok" else "err"
+        body = r.get("css", "") if lk == "ok" else r.get("display", "")
+        c["lib"] = (lk, body, r.get("captured", ""))
+        base = f"cli agrees {c['kind']} {lk} {hexs(body)} {hexs(r.get('captured', ''))} {o['code'] if o['code'] is not None and o['code'] >= 0 else 255} " \
+               f"{hexs(o['stdout'])} {hexs(o['stderr'])} none"
+        lines += [base + " 1 1", base + " 0 1"]
+    outs = driver(lines)
+    for k, (c, o) in enumerate(zip(cases, obs)):
+        spec, found = outs[2 * k], outs[2 * k + 1]
+        size = len(c["lib"][1].encode())
+        ck.count(("io", c["argv"], c["stdout"], c["stdin"] is not None), True)
+        ck.hist("io-failure:" + c["kind"] + ":" + ("lib-err" if c["lib"][0] == "err" else "<1KiB" if size < 1024 else "<8KiB" if size < 8192 else ">64KiB" if size > 65536 else "8-64KiB"))
+        if spec == "ok 1":
+            continue
+        tags = ["C20-unflushed-stdout"] if found == "ok 1" else []
+        if found != "ok 1":
+            ck.cov["model_disagreements"] += 1
+            ck.disagreements.append({"argv": c["argv"], "stdout_redirected_to": c["stdout"], "model": "outcomeIO (as found and specified) both disagree",
+                                     "binary": _obs_json(o)})
+        key = {"argv": c["argv"], "input": c["input"], "stdin": c["stdin"], "stdout": c["stdout"]}
+        ck.impl_violation(json.dumps(key, sort_keys=True),
+                          {"argv": c["argv"], "input": c["input"][:300], "stdin": c["stdin"] is not None, "stdout_redirected_to": c["stdout"],
+                           "css_bytes": size, "observed": _obs_json(o),
+                           "expected_by_property": "the CSS could not be written: non-zero exit and the I/O error on stderr"}, tags=tags)
+
 
 
 def _txt(t):
